@@ -44,3 +44,13 @@ Definition cfg_sane (c : route_cfg) : bool :=
   c_default_all c &&
   match c_cmp c with CmpDeepEqual => true | CmpIfaceEq => false end &&
   c_topic_wordwise c.
+
+(* variants of a configuration: the code as it was before a repair (used by the refutation witnesses) *)
+Definition cfg_set (c : route_cfg) (early_direct : bool) (cmp : cmp_mode) (unbind_refuses : bool) : route_cfg :=
+  {| c_direct := c_direct c; c_fanout := c_fanout c; c_topic := c_topic c; c_headers := c_headers c;
+     c_early_direct := early_direct; c_early_fanout := c_early_fanout c;
+     c_early_topic := c_early_topic c; c_early_headers := c_early_headers c;
+     c_x_prefix := c_x_prefix c; c_x_match := c_x_match c; c_all := c_all c; c_any := c_any c;
+     c_default_all := c_default_all c; c_cmp := cmp; c_topic_wordwise := c_topic_wordwise c;
+     c_bind_refuses_default := c_bind_refuses_default c; c_unbind_refuses_default := unbind_refuses;
+     c_default_binding_on_declare := c_default_binding_on_declare c |}.
